@@ -17,6 +17,7 @@ import (
 	"runtime"
 	"strconv"
 	"sync"
+	"syscall"
 	"sync/atomic"
 	"time"
 
@@ -66,6 +67,11 @@ func worker() {
 	G, _ := strconv.Atoi(os.Getenv("C06_G"))
 	N, _ := strconv.Atoi(os.Getenv("C06_N"))
 	NP, _ := strconv.Atoi(os.Getenv("C06_PATHS"))
+	// index of a lock path that is not a regular file (-1: none); "chardev" or "fifo"
+	nonreg, nonregKind := -1, os.Getenv("C06_NONREG_KIND")
+	if v := os.Getenv("C06_NONREG"); v != "" {
+		nonreg, _ = strconv.Atoi(v)
+	}
 	words, err := vlib.OpenSharedWords(filepath.Join(dir, "words"), 16)
 	if err != nil {
 		fmt.Fprintln(os.Stderr, err)
@@ -123,6 +129,11 @@ func worker() {
 				pi := rng.Intn(NP)
 				path := filepath.Join(dir, fmt.Sprintf("lock%d", pi))
 				api := apis[rng.Intn(len(apis))]
+				// a path that cannot be truncated (device node, FIFO): Transform would fail on it,
+				// and a FIFO would fill up under Write - use the entry points that only lock
+				for pi == nonreg && (api == "Transform" || (api == "Write" && nonregKind == "fifo")) {
+					api = apis[rng.Intn(len(apis))]
+				}
 				writer := api != "OpenFile(O_RDONLY)" && api != "Open"
 				enter := func() {
 					var v uint64
@@ -215,6 +226,9 @@ func worker() {
 				}
 				mu.Lock()
 				res.Acq[api]++
+				if pi == nonreg {
+					res.Acq["(on the "+nonregKind+" path) "+api]++
+				}
 				mu.Unlock()
 			}
 		}(g)
@@ -238,7 +252,7 @@ func main() {
 		return
 	}
 	vlib.Main("C06", "exploration", 10*time.Minute, func(r *vlib.Run) {
-		r.Rule("rounds of P processes x G goroutines released together, each doing N acquisitions on 2-3 lock paths through a random entry point (OpenFile O_RDONLY/O_WRONLY/O_RDWR, Open, Create, Edit, Mutex.Lock, inside Transform's function, inside the reader handed to Write), dwelling 0-300us inside, with seeded delays at the lockedfile.open/close hooks. Evaluations = acquisitions; distinct non-trivial = acquisitions that found a conflicting holder inside when they were invoked (had to wait), plus rounds.")
+		r.Rule("rounds of P processes x G goroutines released together, each doing N acquisitions on 2-3 lock paths (regular files; every other round also one private character device or FIFO, whose truncation by Create/Write fails and is tolerated) through a random entry point (OpenFile O_RDONLY/O_WRONLY/O_RDWR, Open, Create, Edit, Mutex.Lock, inside Transform's function, inside the reader handed to Write), dwelling 0-300us inside, with seeded delays at the lockedfile.open/close hooks. Evaluations = acquisitions; distinct non-trivial = acquisitions that found a conflicting holder inside when they were invoked (had to wait), plus rounds.")
 		r.Assume("flock semantics of the host kernel; the occupancy word is updated only between an acquiring call's return and the releasing call's invocation")
 		base := vlib.Scratch()
 		rounds := r.Pick(6, 60)
@@ -253,6 +267,35 @@ func main() {
 			NP := 2 + rng.Intn(2)
 			for i := 0; i < NP; i++ {
 				os.WriteFile(filepath.Join(dir, fmt.Sprintf("lock%d", i)), []byte("init\n"), 0o666)
+			}
+			// every other round one more path is a file that cannot be truncated: a private
+			// character device (a clone of /dev/null) or, where mknod is not permitted, a FIFO
+			// kept open read-write by this process so that opening it never blocks. O_TRUNC
+			// opens (Create, Write) tolerate the failing truncation there and must still lock.
+			nonreg, nonregKind := -1, ""
+			var fifoHolder *os.File
+			if round%2 == 1 {
+				np := filepath.Join(dir, fmt.Sprintf("lock%d", NP))
+				if err := syscall.Mknod(np, syscall.S_IFCHR|0o666, 1<<8|3); err == nil {
+					if f, err := os.OpenFile(np, os.O_RDWR, 0); err == nil {
+						f.Close()
+						nonreg, nonregKind = NP, "chardev"
+					} else {
+						os.Remove(np)
+					}
+				}
+				if nonreg < 0 {
+					if err := syscall.Mkfifo(np, 0o666); err == nil {
+						if f, err := os.OpenFile(np, os.O_RDWR, 0); err == nil {
+							fifoHolder = f
+							nonreg, nonregKind = NP, "fifo"
+						}
+					}
+				}
+				if nonreg >= 0 {
+					NP++
+					r.Count("rounds_with_a_"+nonregKind+"_lock_path", 1)
+				}
 			}
 			words, err := vlib.OpenSharedWords(filepath.Join(dir, "words"), 16)
 			if err != nil {
@@ -270,7 +313,7 @@ func main() {
 				cmd := exec.Command(os.Args[0])
 				cmd.Env = append(os.Environ(), "C06_WORKER=1", "C06_DIR="+dir, "C06_OUT="+out,
 					fmt.Sprintf("C06_SEED=%d", r.SubSeed(fmt.Sprintf("w-%d-%d", round, p))%1_000_000),
-					fmt.Sprintf("C06_G=%d", G), fmt.Sprintf("C06_N=%d", N), fmt.Sprintf("C06_PATHS=%d", NP), vlib.RaceEnv(racePrefix))
+					fmt.Sprintf("C06_G=%d", G), fmt.Sprintf("C06_N=%d", N), fmt.Sprintf("C06_PATHS=%d", NP), fmt.Sprintf("C06_NONREG=%d", nonreg), "C06_NONREG_KIND="+nonregKind, vlib.RaceEnv(racePrefix))
 				cmd.Stderr = os.Stderr
 				if err := cmd.Start(); err != nil {
 					r.Inconclusive(err.Error())
@@ -321,6 +364,9 @@ func main() {
 				}
 			}
 			words.Close()
+			if fifoHolder != nil {
+				fifoHolder.Close()
+			}
 			os.RemoveAll(dir)
 			if round == 0 {
 				r.Sample(map[string]any{"kind": "round", "processes": P, "goroutines": G, "acquisitions_per_goroutine": N, "paths": NP})
